@@ -114,14 +114,13 @@ func c05R2(c *core.Ctx) {
 		c.Check(ok, rule, fnName(g)+":reduces its argument in place", g.Pos(), "the delta is the argument object itself, reduced by the subset merges", "State.Merge does not reduce its argument in place (Swarm.merge would replay the whole payload into the peer counters)")
 	}
 	// the callback
-	mc, ok := eng.CallArgs(subs[0].Common())[1].(*ssa.MakeClosure)
-	if !ok {
-		c.Undecided(rule, name+":callback", subs[0].Pos(), "Subscriptions is not given a closure literal")
+	cb, off := eng.FuncValue(eng.CallArgs(subs[0].Common())[1])
+	if cb == nil || cb.Blocks == nil || len(cb.Params) < off+2 {
+		c.Undecided(rule, name+":callback", subs[0].Pos(), "Subscriptions is not given a closure literal, function or method value")
 		return
 	}
-	cb := mc.Fn.(*ssa.Function)
 	cbName := fnName(cb)
-	ev, val := cb.Params[0], cb.Params[1]
+	ev, val := cb.Params[off], cb.Params[off+1]
 	// own events skipped
 	notSelf := eng.EqPred("ev.Peer != ourself", false, func(x, y ssa.Value) bool {
 		b, isPeer := eng.LoadOfField(x, "Peer")
@@ -236,22 +235,21 @@ func c05R4(c *core.Ctx) {
 		if a[1] != param(f, 1) {
 			continue
 		}
-		mc, isMC := a[2].(*ssa.MakeClosure)
-		if !isMC {
+		cb, off := eng.FuncValue(a[2])
+		if cb == nil || cb.Blocks == nil || len(cb.Params) < off+1 {
 			continue
 		}
-		cb := mc.Fn.(*ssa.Function)
 		var unsub, del bool
 		okU, _ := eng.MustPass(cb, nil, func(i ssa.Instruction) bool {
 			call, ok := fieldFuncCall(i, "OnUnsubscribe")
-			return ok && call.Call.Args[1] == cb.Params[0]
+			return ok && call.Call.Args[1] == cb.Params[off]
 		})
 		unsub = okU
 		okD, _ := eng.MustPass(cb, nil, func(i ssa.Instruction) bool {
 			if !eng.IsCallTo(i, idStateDel) {
 				return false
 			}
-			return eng.StripConv(eng.CallArgs(i.(ssa.CallInstruction).Common())[1]) == cb.Params[0]
+			return eng.StripConv(eng.CallArgs(i.(ssa.CallInstruction).Common())[1]) == cb.Params[off]
 		})
 		del = okD
 		if unsub && del {
